@@ -31,6 +31,19 @@ POOL = {
 ALL_NAMES = [n for ns in POOL.values() for n in ns]
 
 
+def _lambda_params(e: Any) -> list[str]:
+    out: list[str] = []
+    fs = list(getattr(e, "filters", []) or []) + list(getattr(e, "tail", []) or [])
+    for sub in (getattr(e, "then", None), getattr(e, "orelse", None)):
+        if sub is not None:
+            fs += list(getattr(sub, "filters", []) or [])
+    for f in fs:
+        for a in f.args:
+            if isinstance(a, M.Lam):
+                out.extend(a.params)
+    return out
+
+
 class Profile:
     def __init__(self, **kw: Any):
         self.max_depth = 3
@@ -248,7 +261,8 @@ class Gen:
                     k = r.choice(["k", "t"])
                     return M.FCall(f, [M.Lit(k)]), ("ints" if k == "k" else "strs")
                 k = r.choice(["k", "t"])
-                return M.FCall(f, [M.Lam(["it"], M.Var("it", [k]))]), ("ints" if k == "k" else "strs")
+                pn = r.choice(["it", "it", "i", "x", "n", "s"])
+                return M.FCall(f, [M.Lam([pn], M.Var(pn, [k]))]), ("ints" if k == "k" else "strs")
             if f in ("where", "reject", "find", "find_index", "has"):
                 form = r.random()
                 if form < 0.35:
@@ -256,10 +270,12 @@ class Gen:
                 elif form < 0.5:
                     args = [M.Lit("ok")]
                 elif form < 0.8:
-                    args = [M.Lam(["it"], M.Cmp(r.choice(["==", "!=", "<", ">="]), M.Var("it", ["k"]),
-                                              self.prim("int", env, loop)))]
+                    pn = r.choice(["it", "it", "x", "s", "t"])
+                    args = [M.Lam([pn], M.Cmp(r.choice(["==", "!=", "<", ">="]), M.Var(pn, ["k"]),
+                                            self.prim("int", env, loop)))]
                 else:
-                    args = [M.Lam(["it", "i"] if r.random() < 0.3 else ["it"], M.Truthy(M.Var("it", ["ok"])))]
+                    pn = r.choice(["it", "it", "x", "s"])
+                    args = [M.Lam([pn, "i"] if r.random() < 0.3 else [pn], M.Truthy(M.Var(pn, ["ok"])))]
                 rt = {"where": "objs", "reject": "objs", "find": "obj", "find_index": "int?", "has": "bool"}[f]
                 return M.FCall(f, args), rt
             if f == "sum":
@@ -434,7 +450,13 @@ class Gen:
         if k == "text":
             return self.text() if allow_text else None
         if k == "out":
-            return M.Out(self.out_expr(env, loop), "echo" if r.random() < 0.2 else "out")
+            e = self.out_expr(env, loop)
+            o = M.Out(e, "echo" if r.random() < 0.2 else "out")
+            params = _lambda_params(e)
+            if params and r.random() < 0.6:
+                # a lambda parameter is visible only inside the lambda: print it afterwards
+                return [o, M.Out(M.Filt(M.Var(r.choice(params))))]
+            return o
         if k == "assign":
             ty = r.choice(["int", "str", "str", "bool", "ints", "strs", "float"])
             name = self.name_for(ty)
